@@ -54,6 +54,12 @@ def run(R):
             R.violation(f'build-raises-{type(c).__name__}', f'cannot build class {name}: {c!r}', W)
             continue
         emit_and_check(R, name, r, c, W)
+        # the same DAG built so that equal sub-cells are distinct Python objects (a user who builds the same cell twice): still one cell on the wire
+        if 1 < ncells <= 400:
+            st, cf = mon.call(bridge.to_lib, r, 'builder-fresh')
+            if st == 'ok':
+                emit_and_check(R, name + '/equal-cells-as-distinct-objects', r, cf, dict(W, objects='distinct objects for equal cells'))
+                R.count('fresh_object_emissions')
         # the same cell objects serialised as parts of different bags: a descendant on its own after its ancestor, then the ancestor again
         # (every emission must be right whatever was emitted before from the same objects)
         if 1 < ncells <= 400:
@@ -94,6 +100,7 @@ def run(R):
     R.floor('emissions:idx1crc1cache1', 5)
     R.floor('index_entries_verified', 50)
     R.floor('multi_bag_emissions', 20)
+    R.floor('fresh_object_emissions', 20)
 
 
 def replay(R, w, rec):
